@@ -159,6 +159,10 @@ func makeBase(rnd *rand.Rand, k int, thorough bool, big bool) *baseStream {
 		B = 8 << 20
 		size = 5<<20 + rnd.Intn(1<<20)
 		shape = pick(rnd, []string{"smallalpha", "text", "dna", "numeric"})
+		if k%1000 == 0 {
+			// the first big base of every run is the plain one: BWT header directly on the wire (systematic index forgeries below)
+			tf, en = "BWT", "NONE"
+		}
 	}
 	if slowEntropy(en) && size > 20000 {
 		size = 20000
@@ -166,6 +170,9 @@ func makeBase(rnd *rand.Rand, k int, thorough bool, big bool) *baseStream {
 	w := kz.Cfg{Transform: tf, Entropy: en, Block: B, Jobs: 1, Ck: pick(rnd, []uint{0, 0, 32, 64}), Hint: pick(rnd, []int64{-1, 0, int64(size)})}
 	if big {
 		w.Ck = pick(rnd, []uint{0, 0, 32})
+		if k%1000 == 0 {
+			w.Ck = 0
+		}
 	}
 	data := gen.Make(shape, int64(k)*977+int64(size), size)
 	stream, err := kz.Compress(data, w, nil, nil)
@@ -413,6 +420,33 @@ func bigMutations(b *baseStream, rnd *rand.Rand) []mutation {
 	var out []mutation
 	blk := b.st.Blocks[0]
 	off := blk.OffEntropy / 8
+	if b.w.Transform == "BWT" && b.w.Entropy == "NONE" && blk.OffEntropy%8 == 0 && blk.Mode&0x80 == 0 && blk.SkipFlags&0x80 == 0 {
+		// the BWT header is on the wire: mode byte (log2 of the number of chunks, index size), then one primary index per chunk.
+		// Every secondary index is forged to the values around the limits a decoder may compare it with: the block length, the
+		// declared block size (the size of the decoder's buffers), the largest value the field can hold, zero.
+		mode := b.stream[off]
+		chunks := 1 << uint((mode>>2)&7)
+		isz := int(mode&3) + 1
+		count := blk.PreLen - (1 + chunks*isz)
+		maxv := uint64(1)<<uint(8*isz) - 1
+		vals := []uint64{uint64(count) + 1, uint64(count) + 2, uint64(count) + 4096, uint64(b.w.Block), uint64(b.w.Block) + 1, uint64(b.w.Block) - 1, maxv, maxv - 1, 0, 1, uint64(count), uint64(count) - 1}
+		for ci := 1; ci < chunks; ci++ {
+			if ci != 1 && ci != chunks-1 && ci != chunks/2 {
+				continue
+			}
+			for _, v := range vals {
+				if v > maxv+1 || v == 0 && false {
+					continue
+				}
+				d := clone(b.stream)
+				stored := (v - 1) & maxv // the field holds the index minus one
+				for k := 0; k < isz; k++ {
+					d[off+1+ci*isz+k] = byte(stored >> uint(8*(isz-1-k)))
+				}
+				out = append(out, mutation{fmt.Sprintf("big.bwtIndex[%d]=%d (block length %d, block size %d)", ci, v, count, b.w.Block), d})
+			}
+		}
+	}
 	for i := 0; i < 24; i++ {
 		for _, x := range []byte{0x80, 0xFF} {
 			if x == 0xFF && i%4 != 0 {
